@@ -305,15 +305,20 @@ func (h Header) OuterSigType() int {
 
 type LS2 struct {
 	Header
-	Options []Pair
-	Keys    []EncKey
-	Leases  []Lease2
-	Sig     []byte
+	Options    []Pair
+	RawOptions []byte // when set: written instead of the encoding of Options
+	Keys       []EncKey
+	Leases     []Lease2
+	Sig        []byte
 }
 
 func (l LS2) body() []byte {
 	out := l.Header.Encode()
-	out = append(out, MustMapping(l.Options)...)
+	if l.RawOptions != nil {
+		out = append(out, l.RawOptions...)
+	} else {
+		out = append(out, MustMapping(l.Options)...)
+	}
 	out = append(out, byte(len(l.Keys)))
 	for _, k := range l.Keys {
 		out = append(out, U16(k.Type)...)
@@ -330,6 +335,18 @@ func (l LS2) body() []byte {
 // SignedPart: store type 3 prepended to everything before the signature.
 func (l LS2) SignedPart() []byte { return append([]byte{3}, l.body()...) }
 func (l LS2) Encode() []byte     { return append(l.body(), l.Sig...) }
+
+// LS2Extent is the extent the count bytes of a LeaseSet2 declare, whatever the counts
+// are (DecodeLS2 refuses more than 16 leases: the count limit is part of the layout
+// agreement, but not of the question "how many bytes does this header claim").
+func LS2Extent(b []byte) (int, error) {
+	lenientLeases = true
+	defer func() { lenientLeases = false }()
+	_, n, err := DecodeLS2(b)
+	return n, err
+}
+
+var lenientLeases bool
 
 func DecodeLS2(b []byte) (LS2, int, error) {
 	var l LS2
@@ -367,7 +384,7 @@ func DecodeLS2(b []byte) (LS2, int, error) {
 	}
 	nl := int(b[p])
 	p++
-	if nl > 16 {
+	if nl > 16 && !lenientLeases {
 		return l, 0, fmt.Errorf("ls2: %d leases", nl)
 	}
 	for i := 0; i < nl; i++ {
@@ -593,11 +610,15 @@ type RouterAddr struct {
 	Expiration uint64
 	Style      []byte
 	Options    []Pair
+	RawOptions []byte // when set: written instead of the encoding of Options (malformed mappings)
 }
 
 func (a RouterAddr) Encode() []byte {
 	out := append([]byte{a.Cost}, U64(a.Expiration)...)
 	out = append(out, EncodeString(a.Style)...)
+	if a.RawOptions != nil {
+		return append(out, a.RawOptions...)
+	}
 	return append(out, MustMapping(a.Options)...)
 }
 
